@@ -124,6 +124,30 @@ func (*PanicM) UnmarshalText([]byte) error    { return nil }
 func (PanicM) MarshalJSON() ([]byte, error)   { panic("user marshal panic") }
 func (*PanicM) UnmarshalJSON([]byte) error    { return nil }
 
+// hooks that panic with a runtime.Error (not an error value the hook chose to raise)
+type RtPanicM struct{ X int }
+
+func rtIndex(x int) []byte { var a []byte; _ = a[x+3]; return a }
+
+func (v RtPanicM) MarshalBinary() ([]byte, error) { return rtIndex(v.X), nil }
+func (*RtPanicM) UnmarshalBinary([]byte) error     { return nil }
+func (v RtPanicM) MarshalText() ([]byte, error)   { return rtIndex(v.X), nil }
+func (*RtPanicM) UnmarshalText([]byte) error       { return nil }
+func (v RtPanicM) MarshalJSON() ([]byte, error)   { return rtIndex(v.X), nil }
+func (*RtPanicM) UnmarshalJSON([]byte) error       { return nil }
+
+type RtPanicSelfer struct{ X int }
+
+func (v RtPanicSelfer) CodecEncodeSelf(*codec.Encoder) {
+	var m map[string]int
+	m["x"] = v.X // assignment to entry in nil map
+}
+func (*RtPanicSelfer) CodecDecodeSelf(*codec.Decoder) {}
+
+// container types that contain themselves: no finite typeInfo, reported as unsupported (a leaf)
+type RecS []RecS
+type RecM map[string]*RecM
+
 type FailSelfer struct{ X int }
 
 func (FailSelfer) CodecEncodeSelf(*codec.Encoder)  { panic(errUser) }
@@ -372,6 +396,16 @@ func (b *built) fill(d *GraphDesc) {
 			wrap(PanicM{1}, &PanicM{1}, "VBad BMarshalPanic true")
 		case "failselfer":
 			wrap(FailSelfer{1}, &FailSelfer{1}, "VBad BMarshalErr true")
+		case "rtpanicm":
+			wrap(RtPanicM{1}, &RtPanicM{1}, "VBad BMarshalPanic true")
+		case "rtpanicselfer":
+			wrap(RtPanicSelfer{1}, &RtPanicSelfer{1}, "VBad BMarshalPanic true")
+		case "recslice":
+			n.L = RecS{RecS{}, RecS{}}
+			lt = "VIface (VBad BUnsupKind true)"
+		case "recmap":
+			n.L = RecM{"a": &RecM{}}
+			lt = "VIface (VBad BUnsupKind true)"
 		case "unsafeptr":
 			n.L = unsafe.Pointer(n)
 			lt = "VIface (VBad BUnsupKind false)"
@@ -672,15 +706,16 @@ func errCode(err error) int {
 		return 6
 	case strings.Contains(s, "send-only channel"), strings.Contains(s, "cannot encode complex number"),
 		strings.Contains(s, "Raw values cannot be encoded"), strings.Contains(s, "mapBySlice requires even slice length"),
-		strings.Contains(s, "unsupported encoding kind"):
+		strings.Contains(s, "unsupported encoding kind"), strings.Contains(s, "is a container of itself"):
 		return 5
-	case strings.Contains(s, "user marshal failure"), strings.Contains(s, "user marshal panic"):
+	case strings.Contains(s, "user marshal failure"), strings.Contains(s, "user marshal panic"), strings.Contains(s, "runtime error"),
+		strings.Contains(s, "index out of range"), strings.Contains(s, "nil map"):
 		return 7
 	}
 	return 8
 }
 
-var badLeaves = map[string]int{"sendchan": 5, "complex": 5, "raw": 5, "oddmbs": 5, "unsafeptr": 5, "failm": 7, "panicm": 7, "failselfer": 7}
+var badLeaves = map[string]int{"rtpanicm": 7, "rtpanicselfer": 7, "recslice": 5, "recmap": 5, "sendchan": 5, "complex": 5, "raw": 5, "oddmbs": 5, "unsafeptr": 5, "failm": 7, "panicm": 7, "failselfer": 7}
 
 // ---- generation ----
 
@@ -1434,7 +1469,7 @@ func main() {
 	}
 	// leaves table: every kind x {acyclic dag, cyclic} x {direct, behind pointer}
 	lr := r.Fork()
-	leaves := []string{"func", "sendchan", "recvchan", "complex", "complexok", "raw", "oddmbs", "evenmbs", "failm", "panicm", "failselfer", "unsafeptr"}
+	leaves := []string{"func", "sendchan", "recvchan", "complex", "complexok", "raw", "oddmbs", "evenmbs", "failm", "panicm", "failselfer", "unsafeptr", "rtpanicm", "rtpanicselfer", "recslice", "recmap"}
 	for rep := 0; rep < 2; rep++ {
 		for _, lf := range leaves {
 			for _, lp := range []bool{false, true} {
